@@ -153,7 +153,7 @@ func VerifC15Reports() {
 		d.Compatibility = Compatibility(vInt("d.compat", 0, 2))
 		d.DifferenceLocation.URL = "/a"
 		d.DifferenceLocation.Method = "get"
-		d.DifferenceLocation.Node = &Node{Field: []string{"p", "q", "r"}[i%3]}
+		d.DifferenceLocation.Node = &Node{Field: []string{"p", "q", "r", "s", "t"}[i%5]} // distinct locations: every entry renders differently
 		ds = append(ds, d)
 	}
 	breaking := 0
